@@ -218,7 +218,7 @@ def analysis_check(pid, tier, seed, *, items, want, builders, N, variants=None, 
 
 
 def standard_items(run_seed, tier, n_gen_quick, n_gen_thorough, bench_quick=15, profile=None, maxdeg=2, ngoals=5,
-                   corpus=True, bench=True, corpus_quick=None, ps_quick=0, ps_thorough=0):
+                   corpus=True, bench=True, corpus_quick=None, ps_quick=0, ps_thorough=0, bench_thorough=60):
     quick = tier == "quick"
     items = C.corpus_files() if corpus else []
     if quick and corpus_quick is not None:
@@ -228,7 +228,7 @@ def standard_items(run_seed, tier, n_gen_quick, n_gen_thorough, bench_quick=15, 
         b = C.benchmark_files()
         rng = random.Random(run_seed)
         rng.shuffle(b)
-        items += b[:bench_quick] if quick else b
+        items += b[:bench_quick] if quick else b[:bench_thorough]
     items += C.fixed_templates()
     items += C.generated(run_seed, n_gen_quick if quick else n_gen_thorough, profile=profile,
                          maxdeg=maxdeg if quick else maxdeg + 1, ngoals=ngoals if quick else ngoals + 3)
